@@ -406,3 +406,21 @@ Proof.
   split; [vm_compute; reflexivity|]. split; [vm_compute; reflexivity|].
   vm_compute. discriminate.
 Qed.
+
+(* Packaging of "all exact-arithmetic theorems apply verbatim": any statement
+   P proved for all runs of the exact ledger holds for the run of the ROUNDED
+   ledger on every history the representable arithmetic accepts. *)
+Theorem C01_exact_theorems_transfer :
+  forall P : option status -> list tx -> list delta -> option stop -> Prop,
+  (forall init txs ds o, run exact init txs = (ds, o) -> P init txs ds o) ->
+  forall init txs ds o,
+    run rep init txs = (ds, o) -> opstopb o = false ->
+    run dec init txs = (ds, o) /\ P init txs ds o.
+Proof. exact DecTransfer.exact_theorems_transfer. Qed.
+Check C01_exact_theorems_transfer :
+  forall P : option status -> list tx -> list delta -> option stop -> Prop,
+  (forall init txs ds o, run exact init txs = (ds, o) -> P init txs ds o) ->
+  forall init txs ds o,
+    run rep init txs = (ds, o) -> opstopb o = false ->
+    run dec init txs = (ds, o) /\ P init txs ds o.
+Print Assumptions C01_exact_theorems_transfer.
